@@ -84,6 +84,7 @@ class RandInfoBuilder(ModelVisitor,RandIF):
         self._rng = rng
         
         self._order_m = {}
+        self._noref_randset = None
         self._expr2fm = Expr2FieldVisitor()
         self._soft_cond_l = []
         
@@ -207,9 +208,15 @@ class RandInfoBuilder(ModelVisitor,RandIF):
                 self._active_randset.add_constraint(c)
                 for s in self._active_order_randset_s:
                     s.add_constraint(c)
-            else:
-#                print("TODO: handle no-reference constraint: " + str(c_blk.name))
-                pass
+            elif isinstance(c, ConstraintExprModel) and not isinstance(c.e, ExprDynRefModel):
+                # The expression references no field, so it belongs to the
+                # random set of no variable. It must hold all the same: 
+                # collect these statements in a set of their own
+                if self._noref_randset is None:
+                    self._noref_randset = RandSet()
+                    self._randset_m[self._noref_randset] = len(self._randset_l)
+                    self._randset_l.append(self._noref_randset)
+                self._noref_randset.add_constraint(c)
         super().visit_constraint_stmt_leave(c)
         
     def visit_constraint_dynref(self, c):
